@@ -163,6 +163,17 @@ def value_variants(args, kwitems):
     """the call itself plus variants in which the first argument slot takes values that are equal-but-differently
     typed (1, 1.0, True) or that print alike ('1', (1,), b'1')"""
     yield args, kwitems
+    # two slots holding equal values of different types, crosswise (2 / 3.0 versus 2.0 / 3)
+    slots = [('p', i) for i in range(len(args))] + [('k', i) for i in range(len(kwitems))]
+    if len(slots) >= 2:
+        for (x, y) in ((2, 3.0), (2.0, 3)):
+            a, k = list(args), list(kwitems)
+            for (kind, i), v in zip(slots[-2:], (x, y)):
+                if kind == 'p':
+                    a[i] = v
+                else:
+                    k[i] = (k[i][0], v)
+            yield tuple(a), k
     for v in VARIANTS:
         if args:
             yield (v,) + tuple(args[1:]), kwitems
